@@ -90,10 +90,18 @@ func vfMakeLeaf(ca *x509.Certificate, caKey crypto.Signer, kind, cn string, dns 
 		panic(err)
 	}
 	tmpl := &x509.Certificate{
-		SerialNumber: big.NewInt(serial), Subject: pkix.Name{CommonName: cn}, DNSNames: dns,
+		SerialNumber: big.NewInt(serial), Subject: pkix.Name{CommonName: cn},
 		NotBefore: notBefore, NotAfter: notAfter,
 		KeyUsage:    x509.KeyUsageDigitalSignature | x509.KeyUsageKeyEncipherment,
 		ExtKeyUsage: []x509.ExtKeyUsage{x509.ExtKeyUsageServerAuth, x509.ExtKeyUsageClientAuth},
+	}
+	// names that are IP literals become iPAddress subject alternative names
+	for _, name := range dns {
+		if ip := net.ParseIP(name); ip != nil {
+			tmpl.IPAddresses = append(tmpl.IPAddresses, ip)
+		} else {
+			tmpl.DNSNames = append(tmpl.DNSNames, name)
+		}
 	}
 	der, err := x509.CreateCertificate(rand.Reader, tmpl, ca, priv.Public(), caKey)
 	if err != nil {
@@ -140,6 +148,7 @@ func vfGetPKI() *vfPKI {
 		p.leaf["ecdsa/server-rogueca"] = vfMakeLeaf(p.RogueCA, p.RogueKey, "ecdsa", "vf-server-rogue", []string{vfServerName}, nb, na, 201)
 		p.leaf["ecdsa/client-rogueca"] = vfMakeLeaf(p.RogueCA, p.RogueKey, "ecdsa", "vf-client-rogue", []string{"vf.client.example"}, nb, na, 202)
 		p.leaf["ecdsa/server-wrongname"] = vfMakeLeaf(p.CA, p.CAKey, "ecdsa", "vf-server-other", []string{"other.example"}, nb, na, 203)
+		p.leaf["ecdsa/server-ip"] = vfMakeLeaf(p.CA, p.CAKey, "ecdsa", "vf-server-ip", []string{"192.0.2.7", "2001:db8::7"}, nb, na, 213)
 		p.leaf["ecdsa/server-expired"] = vfMakeLeaf(p.CA, p.CAKey, "ecdsa", "vf-server-expired", []string{vfServerName},
 			time.Date(1990, 1, 1, 0, 0, 0, 0, time.UTC), time.Date(1999, 12, 1, 0, 0, 0, 0, time.UTC), 204)
 		p.leaf["ecdsa/client-expired"] = vfMakeLeaf(p.CA, p.CAKey, "ecdsa", "vf-client-expired", []string{"vf.client.example"},
